@@ -215,6 +215,9 @@ func (f *File) Add(d any) {
 
 type Program struct {
 	Files []*File
+	// ImageDeps: hand the external dependency files to the compiler through the tool's own
+	// dependency set (internal/source), not through the harness's map
+	ImageDeps bool
 }
 
 // ---------- names ----------
@@ -256,6 +259,7 @@ func Screaming(s string) string { return strings.ToUpper(Snake(LowerFirst(s))) }
 
 func (p *Program) Bundle() *Bundle {
 	b := NewBundle()
+	b.ImageDeps = p.ImageDeps
 	for _, f := range p.Files {
 		if f.IsDep {
 			if b.Deps == nil {
